@@ -131,3 +131,32 @@ func verifGate(obj any) {
 // VerifBase64 / VerifBaseD return the object the engine passes to VerifGate.
 func VerifBase64(c *clipper64) any { return c.clipperBase }
 func VerifBaseD(c *clipperD) any   { return c.clipperBase }
+
+// VerifEdge is one active edge as seen in a scan-beam snapshot.
+type VerifEdge struct {
+	Bot, Top           Point64
+	WindDx             int
+	IsClip, IsOpen     bool
+	WindCount          int
+	WindCount2         int
+	Hot, Joined, Horiz bool
+	CurX               int64
+}
+
+// VerifSweepHook, when set, receives the active edge list (left to right) after the local minima
+// and horizontals of scan-line y have been processed, i.e. for the scan-beam that starts at y.
+// obj identifies the engine (see VerifBase64). The hook must not retain or modify anything.
+var VerifSweepHook func(obj any, y int64, ael []VerifEdge)
+
+func verifSweepSnapshot(c *clipperBase, y int64) {
+	if VerifSweepHook == nil {
+		return
+	}
+	var ael []VerifEdge
+	for e := c.actives; e != nil; e = e.nextInAEL {
+		ael = append(ael, VerifEdge{Bot: e.bot, Top: e.top, WindDx: e.windDx, IsClip: e.localMin.PolyType == Clip,
+			IsOpen: e.localMin.IsOpen, WindCount: e.windCount, WindCount2: e.windCount2,
+			Hot: e.outrec != nil, Joined: e.joinWith != JoinNone, Horiz: e.top.Y == e.bot.Y, CurX: e.curX})
+	}
+	VerifSweepHook(c, y, ael)
+}
